@@ -4,8 +4,11 @@ real code and evaluated directly by vf.ref.transclusion (which never parses wiki
 Nodes (tuples):
   ("T", text) | ("S", [nodes]) | ("P", rawname, key, default|None)
   ("C", rawname, name, [arg]) with arg = ("pos", S) | ("named", rawkey, key, S, lead, trail)
+                                      | ("cnamed", nameS, S, lead, trail)   name computed from an AST (C04 only)
   ("IF", c, a, b) | ("EQ", x, y, a, b) | ("SW", v, [(case|None, S|None)...])   case None = lone value
   ("NOINC", S) | ("ONLYINC", S) | ("INCONLY", S) | ("COMMENT", text)      (template bodies only)
+  ("INV", fn, [S...])   {{#invoke:c13echo|fn|...}} (C13 only; module text in vf.props.c13)
+  ("RN", rawname, IF|EQ|SW node)   the parser function written under another spelling of its name, e.g. #IF (C13 only)
 """
 from __future__ import annotations
 
@@ -142,6 +145,8 @@ def render(a):
         for arg in a[3]:
             if arg[0] == "pos":
                 parts.append(render(arg[1]))
+            elif arg[0] == "cnamed":
+                parts.append(render(arg[1]) + "=" + arg[3] + render(arg[2]) + arg[4])
             else:
                 parts.append(arg[1] + "=" + arg[4] + render(arg[3]) + arg[5])
         return "{{" + "|".join(parts) + "}}"
@@ -163,6 +168,11 @@ def render(a):
         return "<includeonly>" + render(a[1]) + "</includeonly>"
     if k == "COMMENT":
         return "<!--" + a[1] + "-->"
+    if k == "INV":
+        return "{{#invoke:c13echo|" + a[1] + "".join("|" + render(x) for x in a[2]) + "}}"
+    if k == "RN":
+        r = render(a[2])
+        return "{{" + a[1] + r[r.index(":"):]
     raise ValueError(k)
 
 
@@ -175,7 +185,7 @@ def size(a):
     if k == "P":
         return 1 + (size(a[3]) if a[3] is not None else 0)
     if k == "C":
-        return 1 + sum(size(x[1] if x[0] == "pos" else x[3]) for x in a[3])
+        return 1 + sum(size(x[1]) + size(x[2]) if x[0] == "cnamed" else size(x[1] if x[0] == "pos" else x[3]) for x in a[3])
     if k in ("IF", "EQ"):
         return 1 + sum(size(x) for x in a[1:])
     if k == "CN":
@@ -184,6 +194,10 @@ def size(a):
         return 1 + size(a[1]) + sum(size(v) for c, v in a[2])
     if k in ("NOINC", "ONLYINC", "INCONLY"):
         return 1 + size(a[1])
+    if k == "INV":
+        return 1 + sum(size(x) for x in a[2])
+    if k == "RN":
+        return 1 + size(a[2])
     return 1
 
 
@@ -226,6 +240,14 @@ def shrinks(a):
                 yield arg[1]
                 for y in shrinks(arg[1]):
                     yield ("C", a[1], a[2], args[:i] + [("pos", y)] + args[i + 1:])
+            elif arg[0] == "cnamed":
+                yield arg[2]
+                if (arg[3], arg[4]) != ("", ""):
+                    yield ("C", a[1], a[2], args[:i] + [("cnamed", arg[1], arg[2], "", "")] + args[i + 1:])
+                for y in shrinks(arg[1]):
+                    yield ("C", a[1], a[2], args[:i] + [("cnamed", y, arg[2], arg[3], arg[4])] + args[i + 1:])
+                for y in shrinks(arg[2]):
+                    yield ("C", a[1], a[2], args[:i] + [("cnamed", arg[1], y, arg[3], arg[4])] + args[i + 1:])
             else:
                 yield arg[3]
                 if (arg[1], arg[4], arg[5]) != (arg[2], "", ""):
@@ -259,6 +281,19 @@ def shrinks(a):
         yield a[1]
         for y in shrinks(a[1]):
             yield (k, y)
+    elif k == "INV":
+        for x in a[2]:
+            yield x
+        for i in range(len(a[2])):
+            yield ("INV", a[1], a[2][:i] + a[2][i + 1:])
+        for i, x in enumerate(a[2]):
+            for y in shrinks(x):
+                yield ("INV", a[1], a[2][:i] + [y] + a[2][i + 1:])
+    elif k == "RN":
+        yield a[2]
+        for y in shrinks(a[2]):
+            if y[0] == a[2][0]:
+                yield ("RN", a[1], y)
 
 
 def tojson(a):
@@ -280,6 +315,8 @@ def fromjson(a):
             for x in a[3]:
                 if x[0] == "pos":
                     args.append(("pos", fromjson(x[1])))
+                elif x[0] == "cnamed":
+                    args.append(("cnamed", fromjson(x[1]), fromjson(x[2]), x[3], x[4]))
                 else:
                     args.append(("named", x[1], x[2], fromjson(x[3]), x[4], x[5]))
             return ("C", a[1], a[2], args)
@@ -292,4 +329,8 @@ def fromjson(a):
             return ("SW", fromjson(a[1]), [(c, fromjson(v)) for c, v in a[2]])
         if k in ("NOINC", "ONLYINC", "INCONLY"):
             return (k, fromjson(a[1]))
+        if k == "INV":
+            return ("INV", a[1], [fromjson(x) for x in a[2]])
+        if k == "RN":
+            return ("RN", a[1], fromjson(a[2]))
     return a
